@@ -284,9 +284,29 @@ class _World:
     def txt(self, value):
         import dns.rdataset
 
-        return dns.rdataset.from_text("IN", "TXT", 300, f'"{value}"')
+        rds = dns.rdataset.from_text("IN", "TXT", 300, f'"{value}"')
+        cur = self.sched.current if self.sched is not None else None
+        if cur is not None:
+            cur.data.setdefault("handed_in", []).append(rds)
+        return rds
+
+    def scribble(self, t):
+        """After its transaction ended the writer goes on using the rdataset objects it passed in."""
+        import dns.rdata
+
+        objs = t.data.pop("handed_in", [])
+        for rds in objs:
+            try:
+                rds.add(dns.rdata.from_text("IN", "TXT", f'"{POISON + 7}"'))
+                rds.update_ttl(7)
+            except Exception:  # noqa: BLE001
+                pass
+        if objs:
+            self.res.faults.inc("client_scribbles_on_passed_in_objects", len(objs))
 
     def read_int(self, rds):
+        if len(rds) != 1 or rds.ttl != 300:
+            raise Violation("C12:foreign-data-visible", f"an rdataset holds {len(rds)} records with TTL {rds.ttl}: {[r.to_text() for r in rds]} (every transaction stores exactly one record with TTL 300)")
         return int(rds[0].strings[0])
 
     # --- oracle: evaluated at every scheduler step ---
@@ -413,6 +433,7 @@ class _World:
                 self.open.remove(t)
             if t.phase != "idle":
                 t.phase = "idle"
+        self.scribble(t)
         log.add("ended", t.idx, n)
 
     def _writer_body(self, t, op, n, txn):
